@@ -56,7 +56,25 @@ Write(e) ==
                         \cup (IF ~e.del /\ DestroyReady(nv) /\ \E i \in cfg[c].ins : i.k = key.k /\ i.ik = "qMappedDestroyReady"
                               THEN {[p |-> p, src |-> key, dr |-> TRUE] : p \in MapTo(key)} ELSE {})
                    ELSE need[c]]
-     /\ UNCHANGED <<cfg, robs, qobs, lastRead>> /\ Keep
+     (* teardown-bound contexts of this resource (kept in lastRead under negative reader numbers, see CCtx): the resource is *)
+     (* torn down or removed => they have to be cancelled                                                                       *)
+     /\ lastRead' = [x \in DOMAIN lastRead |->
+                       IF x[1] < 0 /\ x[2] = key /\ (e.del \/ e.td) THEN [lastRead[x] EXCEPT !.ver = 1] ELSE lastRead[x]]
+     /\ UNCHANGED <<cfg, robs, qobs>> /\ Keep
+
+(* C15: a teardown-bound context handed out by the cached state for a resource: handle n is remembered as reader -n of that    *)
+(* key; ver = 1 once the resource has been torn down / removed (or was already, or was absent, when the context was handed out) *)
+CCtx(e) ==
+  LET cur == Get(store, Key(e), Absent) IN
+  /\ lastRead' = Put(lastRead, <<0 - e.n, Key(e)>>, [ver |-> IF cur.ver = 0 \/ cur.td THEN 1 ELSE 0, inc |-> 0])
+  /\ UNCHANGED <<store, cfg, robs, qobs, need>> /\ Keep
+(* its state when the system has gone quiet: cancelled exactly if the resource was torn down, removed or absent *)
+CCtxState(e) ==
+  LET h == <<0 - e.n, Key(e)>> IN
+  IF h \notin DOMAIN lastRead THEN UNCHANGED <<store, cfg, robs, qobs, need, lastRead>> /\ Keep
+  ELSE IF lastRead[h].ver = 1 /\ ~e.err THEN Reject("cached-ctx-not-cancelled", [key |-> Key(e), store |-> Get(store, Key(e), Absent)], "still alive")
+  ELSE IF lastRead[h].ver = 0 /\ e.err THEN Reject("cached-ctx-cancelled-spuriously", [key |-> Key(e), store |-> Get(store, Key(e), Absent)], "cancelled")
+  ELSE UNCHANGED <<store, cfg, robs, qobs, need, lastRead>> /\ Keep
 
 (* a reduced-runtime reconcile read all its inputs *)
 RRec(e) ==
@@ -131,6 +149,8 @@ Next ==
               [] e.ev = "rrec" -> RRec(e)
               [] e.ev = "qrec" -> QRec(e)
               [] e.ev = "cread" -> CRead(e)
+              [] e.ev = "cctx" -> CCtx(e)
+              [] e.ev = "cctxstate" -> CCtxState(e)
               [] e.ev = "quiet" -> Quiet(e)
               [] e.ev = "violation" -> Reject(e.what, "", e.note)
               [] OTHER -> UNCHANGED <<store, cfg, robs, qobs, need, lastRead, life, tid, bad>>
